@@ -1,1 +1,2 @@
-
+pub mod relaynet;
+pub mod relaynet_mc;
